@@ -14,7 +14,8 @@ coercion -> resolvers:
   resolver faults  at every executed field of 7 documents: ResolverError with / without extensions (plain
                    dict with nested values, MappingProxyType, ChainMap, OrderedDict, custom Mapping, empty
                    mapping), a ResolverError subclass, errors that already carry a foreign path / foreign
-                   nodes, an error re-raised from a delegated sub-request, ONE exception instance raised by
+                   nodes, an error re-raised from a delegated sub-request, extensions with falsy values of every
+                   JSON kind alone and mixed, empty / whitespace-only messages, ONE exception instance raised by
                    several fields, null (nullable and non-null positions), null list items; the same
                    fault at every field of one name; pairs of faults (thorough)
   return faults    finite float, nan, inf, -inf, huge int, bytes, set at leaf fields of each built-in scalar
@@ -99,6 +100,19 @@ for _t, _body in re.findall(r"type (\w+) \{(.*?)\}", SDL, re.S):
 NATURAL = {"tick": 1, "a": 1, "f": 1.5, "s": "str", "b": True, "id": "id1", "e": "A", "nn": 7, "m": 3, "n": 4}
 EXT = {"code": 42, "nested": {"k": [1, "x", None]}}
 
+# extensions with falsy values of every JSON kind, alone and mixed with truthy ones
+EXTV = [
+    {"code": 0},
+    {"ratio": 0.0},
+    {"retry": False},
+    {"hint": ""},
+    {"list": []},
+    {"obj": {}},
+    {"none": None},
+    {"code": 0, "retry": False, "hint": ""},
+    {"code": 0, "ok": True, "hint": "", "msg": "m", "list": [], "none": None, "nested": {"k": 0, "e": []}, "n": 7},
+]
+
 RETURNS = {
     "float": 1.5,
     "nan": float("nan"),
@@ -161,6 +175,14 @@ def _behave(ctx, info, args):
         }[fault]()
         log.append([path, ftype, "raised", "ext-empty" if fault == "err-ext-empty" else "ext"])
         raise ResolverError("boom", extensions=ext)
+    if isinstance(fault, str) and fault.startswith("err-extv-"):
+        k = int(fault.rsplit("-", 1)[1])
+        log.append([path, ftype, "raised", ["extv", k]])
+        raise ResolverError("boom", extensions=dict(EXTV[k]))
+    if fault in ("err-msg-empty", "err-msg-space"):
+        # "each error has a string message" -- also when the resolver's message is empty
+        log.append([path, ftype, "raised", None])
+        raise ResolverError("" if fault == "err-msg-empty" else "  ")
     if fault == "err-path":
         # an error that already carries a (foreign) path: the field's path must win
         log.append([path, ftype, "raised", None])
@@ -369,9 +391,15 @@ def _norm(o):
     return o
 
 
+def _typed(o):
+    """canonical text that keeps 0 / 0.0 / false / "" / null apart (0 == False in Python)"""
+    return json.dumps(_norm(o), sort_keys=True)
+
+
 def expected_error_paths(log):
     """paths at which the log says an error must be reported, with the log's remark
-    (None | "ext": EXT expected | "ext-empty": no or empty extensions | "foreign-nodes")"""
+    (None | "ext": EXT expected | ["extv", k]: EXTV[k] expected | "ext-empty": no or empty extensions |
+    "foreign-nodes")"""
     out = []
     for path, ftype, what, extra in log:
         if what == "raised":
@@ -456,7 +484,7 @@ def check_result(text, stage, res, log, plan):
         if not isinstance(err, dict):
             out.append(("error-not-dict", repr(err)[:100]))
             continue
-        if not isinstance(err.get("message"), str) or not err.get("message"):
+        if not isinstance(err.get("message"), str):
             out.append(("message-missing-or-not-str", repr(err)[:200]))
         bad = set(err) - {"message", "locations", "path", "extensions"}
         if bad:
@@ -549,6 +577,10 @@ def check_result(text, stage, res, log, plan):
                         got_ext = err.get("extensions")
                         if ext == "ext" and not (isinstance(got_ext, dict) and _norm(got_ext) == _norm(EXT)):
                             out.append(("extensions-not-passed-through", repr(err)[:200]))
+                        elif isinstance(ext, list) and ext[0] == "extv" and not (
+                            isinstance(got_ext, dict) and _typed(got_ext) == _typed(EXTV[ext[1]])
+                        ):
+                            out.append(("extensions-not-passed-through", "supplied %r, response has %r" % (EXTV[ext[1]], got_ext)))
                         elif ext == "ext-empty" and not ("extensions" not in err or got_ext == {}):
                             out.append(("extensions-not-passed-through", "empty mapping became %r" % (got_ext,)))
                         elif ext in (None, "foreign-nodes") and "extensions" in err:
@@ -593,6 +625,16 @@ def selftest():
     assert probs("{ a }", "execute", GraphQLResult(data={"a": None}, errors=[ee]), [[["a"], "Int", "raised", "ext"]]) == []
     assert probs("{ a }", "execute", GraphQLResult(data={"a": None}, errors=[ee]), [[["a"], "Int", "raised", "ext-empty"]]) == ["extensions-not-passed-through"]
     assert probs("{ a }", "execute", GraphQLResult(data={"a": None}, errors=[e]), [[["a"], "Int", "raised", "ext-empty"]]) == []
+    ev = ResolverError("x", path=["a"], extensions={"retry": 0})
+    assert probs("{ a }", "execute", GraphQLResult(data={"a": None}, errors=[ev]), [[["a"], "Int", "raised", ["extv", 2]]]) == ["extensions-not-passed-through"]
+    ev = ResolverError("x", path=["a"], extensions={"retry": False})
+    assert probs("{ a }", "execute", GraphQLResult(data={"a": None}, errors=[ev]), [[["a"], "Int", "raised", ["extv", 2]]]) == []
+    assert probs("{ a }", "execute", GraphQLResult(data={"a": None}, errors=[e]), [[["a"], "Int", "raised", ["extv", 0]]]) == ["extensions-not-passed-through"]
+    nomsg = Loc2("m", 1, 3, ["a"])
+    del nomsg.d["message"]
+    assert probs("{ a }", "execute", GraphQLResult(data={"a": None}, errors=[nomsg]), [[["a"], "Int", "raised", None]]) == ["message-missing-or-not-str"]
+    nomsg.d["message"] = ""
+    assert probs("{ a }", "execute", GraphQLResult(data={"a": None}, errors=[nomsg]), [[["a"], "Int", "raised", None]]) == []
     lp = Loc2("m", 1, 3, ["a"])
     lp.d["extensions"] = _types.MappingProxyType(dict(EXT))
     assert "not-strict-json:TypeError" in probs("{ a }", "execute", GraphQLResult(data={"a": None}, errors=[lp]), [[["a"], "Int", "raised", "ext"]])
@@ -715,8 +757,8 @@ VALID_FOR_FAULTS = [
 MAX_PATHS = 16
 SINGLE_FAULTS = (
     "err", "err-ext", "err-ext-proxy", "err-ext-chain", "err-ext-ordered", "err-ext-custom", "err-ext-empty",
-    "err-sub", "err-path", "err-nodes", "err-reraise", "null", "null-item",
-)
+    "err-sub", "err-path", "err-nodes", "err-reraise", "err-msg-empty", "err-msg-space", "null", "null-item",
+) + tuple("err-extv-%d" % k for k in range(len(EXTV)))
 
 VAR_DOCS = [
     ("query Q($x: Int = 3, $s: String) { echo(x: $x, s: $s) }", ["x", "s"]),
